@@ -4,7 +4,9 @@ Model of pkg/consensus/liskbft (LIP-0058 vote counting): a line-by-line function
 
 * `uint32` heights are `Nat`; the two places where the Go code can wrap (`oldest.height - 1`,
   `heightNotPrevoted + 1`, `largestHeightPrecommit + 1`) wrap modulo 2^32 here as well;
-* `uint64` weights are `Nat` (sums are assumed < 2^64; the harness stays far below);
+* `uint64` weights are `Nat`; `SetBFTParameters` rejects validator sets whose aggregate weight does
+  not fit into a `uint64` (fix C02-bft-weight-overflow), so the sums formed by the vote counting
+  of honest chains stay below 2^64;
 * the parameter / generator-key stores are association lists keyed by height;
 * `blockBFTInfos` is newest first, as in the code.
 -/
@@ -13,6 +15,7 @@ import LiskVerif.Model.Header
 namespace LiskVerif.BFT
 
 def u32 : Nat := 4294967296
+def u64 : Nat := 18446744073709551616
 
 structure BlockInfo where
   height : Nat
@@ -64,7 +67,7 @@ deriving Repr, DecidableEq
 
 inductive Err where
   | paramsNotFound | invalidState | validatorMissing | batchSize | weight | precommitThreshold
-  | certThreshold | noInfos
+  | certThreshold | noInfos | weightOverflow
 deriving Repr, DecidableEq
 
 /-- `InitGenesisState` -/
@@ -228,6 +231,10 @@ def setParams (s : State) (precommitThreshold certThreshold : Nat) (validators :
     Except Err State :=
   if validators.length > s.batchSize then .error .batchSize
   else if validators.any (·.weight = 0) then .error .weight
+  -- the running `uint64` sum would overflow. (The Go loop tests both conditions validator by
+  -- validator; it returns an error iff one of these two tests fails here — weights being
+  -- non-negative, a prefix sum reaches 2^64 iff the total does; see Props/C02_Gen.lean.)
+  else if (validators.map (·.weight)).sum ≥ u64 then .error .weightOverflow
   else
     let w := (validators.map (·.weight)).sum
     if w / 3 + 1 > precommitThreshold ∨ precommitThreshold > w then .error .precommitThreshold
@@ -244,6 +251,7 @@ def setParams (s : State) (precommitThreshold certThreshold : Nat) (validators :
       if same then .ok s
       else
         let next := currentHeight + 1
+        -- `w/3*2 + w%3*2/3 + 1` in the code: `⌊2w/3⌋+1` without `uint64` overflow (Props/C02_Gen.lean)
         let p : Params := { prevoteThreshold := w * 2 / 3 + 1, precommitThreshold := precommitThreshold,
                             certificateThreshold := certThreshold, validators := sorted }
         let newActive := sorted.map fun v =>
